@@ -217,7 +217,7 @@ def gen_case(rng, pid, tier):
             ops.append(['idg', 1, rng.choice([0, 1, 2, 3, 4, None])])
         elif r < 0.78:
             ops.append(['sstate', pick_srv(), rng.choice(['up', 'down', 'frozen', 'frozen']),
-                        rng.randint(0, 2)])
+                        rng.randint(0, 2), rng.choice([0, 0, 0, 1, 2])])
         elif r < 0.81:
             # overlapping entries too: removing one of them must leave the instance blacklisted by the other
             ops.append(['blacklist', rng.choice([[], ['p1.a0'], ['p2.*'], ['p1.a1', 'p2.a0'], ['p1.*', 'p1.a0'],
@@ -1228,6 +1228,7 @@ def _start_master(w):
     w.m, w.zk = w.new_master()
     w.site_placed = {}
     w.flags = {}
+    w.unsched_named = {}            # the unschedule marks live in the master's memory only
     w.enabled = True
     w.run.op('newmaster %d %d' % (ROOT, LEVELS['cell']), None)
     w.run.op('tick %d' % w.now, None)
@@ -1259,6 +1260,13 @@ class _SchedView(object):
             fnmatch.fnmatch(name.split('#')[0], p) for p in pats)
         # when the harness took a server's presence node away: its current outage is not older than that
         self.down_since_lb = dict(getattr(w, 'presence_lost_at', {}))
+        # instances a freeze request asked to unschedule from the server they are (still) on
+        named = getattr(w, 'unsched_named', {})
+        for an in list(named):
+            a_ = w.m.cell.apps.get(an)
+            if a_ is None or a_.server != named[an]:
+                del named[an]                       # it left that server: the request is spent
+        self.unsched_spec = lambda name, named=dict(named): name in named
         store = w.store
 
         def trait_names(appname, servername):
@@ -1275,6 +1283,17 @@ class _SchedView(object):
                 return None
             return own, off
         self.trait_names = trait_names
+
+        def group_count(gname):
+            """The group's count according to the stored /identity-groups record (a deleted group counts 0)."""
+            rec_ = store.nodes.get('/identity-groups/' + gname)
+            if rec_ is None or not rec_.data:
+                return 0
+            try:
+                return int((json.loads(rec_.data.decode()) or {}).get('count', 0))
+            except (ValueError, TypeError):
+                return None
+        self.group_count = group_count
         # the level of a node, from its NAME (`<level>:<id>`), not from the attribute the loader computed
         self.level_of = lambda node: ('cell' if node is w.m.cell else
                                       'server' if isinstance(node, w.sch.Server) else node.name.split(':')[0])
@@ -1307,7 +1326,13 @@ class _SchedView(object):
 def _integrity(w, pid):
     w.stats['integrity-check'] += 1
     before = {sn: s_.state.value for sn, s_ in w.m.servers.items()}
+    flagged = {an for an, a_ in w.m.cell.apps.items() if a_.unschedule}
     w.m.check_integrity()
+    if not hasattr(w, 'unsched_named'):
+        w.unsched_named = {}
+    for an, a_ in w.m.cell.apps.items():
+        if a_.unschedule and an not in flagged and a_.server:
+            w.unsched_named[an] = a_.server         # did not start in time: the master's own freeze request
     if pid == 'C08':
         for sn, s_ in w.m.servers.items():
             if before.get(sn) == 'down' and s_.state.value != 'down':
@@ -1525,6 +1550,12 @@ def _apply(case, pid, run, w, op):
         w.stats['bounce'] += 1
         guarded('event:presence',
                 lambda: w.m.process_server_presence(w.store.children('/server.presence')))
+        if pid == 'C08' and not op[2]:
+            s_ = w.m.servers.get(sname(sid))
+            if s_ is not None and s_.state.value != 'down':
+                # whatever its state was (up or frozen), a server whose presence node is gone is down: its
+                # instances are governed by their retention timeout from now on
+                _hit(run, 'presence-lost-but-not-down', 'adjust_presence', '%s is %s' % (sname(sid), s_.state.value))
     elif k == 'server':
         _, sid, spec, listed = op
         if spec is None:
@@ -1552,9 +1583,20 @@ def _apply(case, pid, run, w, op):
         _post_event_node(w, 'identity_groups', None)
         guarded('event:identity_groups', lambda: w.m.process_events(w.store.children('/events')))
     elif k == 'sstate':
-        _, sid, state, napps = op
+        _, sid, state, napps = op[:4]
         s = w.m.servers.get(sname(sid))
         apps = sorted(s.apps)[:napps] if s is not None else []
+        if len(op) > 4 and op[4]:
+            # the request may name instances that run elsewhere (it is external input): they are not on the
+            # server being frozen, so nothing happens to them
+            others = sorted(an for an, a_ in w.m.cell.apps.items() if a_.server and a_.server != sname(sid))
+            apps = apps + others[:op[4]]
+        if not hasattr(w, 'unsched_named'):
+            w.unsched_named = {}
+        if state == 'frozen' and s is not None:
+            for an in apps:
+                if an in s.apps:
+                    w.unsched_named[an] = s.name       # asked to leave THIS server
         w.stats['sstate:' + state] += 1
         _post_event_node(w, 'server_state', [sname(sid), state, apps])
         guarded('event:server_state', lambda: w.m.process_events(w.store.children('/events')))
